@@ -10,6 +10,7 @@ package classifier
 import (
 	"fmt"
 	"os"
+	"strings"
 	"testing"
 
 	"pgregory.net/rapid"
@@ -237,4 +238,128 @@ func TestVerif_C02_OracleSelfTest(t *testing.T) {
 			}
 			return lib.Outcome{}
 		}})
+}
+
+// --- line attribution, checked independently of the tokenizer's own line counter
+
+// C02 says StartLine / EndLine are the lines of the first and last word of the span. The main oracle reads the line
+// of a word from the tokenizer; this part checks that attribution itself against the physical lines of the input:
+// the letters of a word must be found on the line it is attributed to (or, for a word hyphenated across a line
+// break, end that line and continue on the next line that has letters).
+
+type c02LineCase struct {
+	X      recipe `json:"x"`
+	Layout []int  `json:"layout,omitempty"` // optional synthetic hyphen / newline layout appended to X
+}
+
+var c02LayoutAtoms = []string{"alpha", "bravo", "charlie", "delta", "echo", "foxtrot", " ", " ", "\n", "\n", "-\n", "-\n", "\n\n", "obtain-\ning", "-", " - ", "x", "a", "\t", "1.", "soft-\n", "-\n\n", "  \n"}
+
+func c02LineGen(t *rapid.T) interface{} {
+	c := &c02LineCase{}
+	if lib.IntN(t, 0, 2, "withRecipe") > 0 {
+		c.X = genRecipe(t, 0.8)
+	}
+	if len(c.X.Segs) == 0 || lib.Bool(t, "withLayout") {
+		c.Layout = lib.Ints(t, 1, 60, 0, len(c02LayoutAtoms)-1, "layout")
+	}
+	return c
+}
+
+func asciiLetters(s string) string {
+	var sb strings.Builder
+	for i := 0; i < len(s); i++ {
+		b := s[i]
+		if b >= 'A' && b <= 'Z' {
+			b += 32
+		}
+		if b >= 'a' && b <= 'z' {
+			sb.WriteByte(b)
+		}
+	}
+	return sb.String()
+}
+
+func c02LineCheck(ci interface{}) lib.Outcome {
+	c := ci.(*c02LineCase)
+	cl := classifierFor(0.8, corpusSel{Docs: []int{0}})
+	x := c.X.build(cl)
+	for _, a := range c.Layout {
+		x = append(x, c02LayoutAtoms[((a%len(c02LayoutAtoms))+len(c02LayoutAtoms))%len(c02LayoutAtoms)]...)
+	}
+	raw := strings.Split(string(x), "\n")
+	letters := make([]string, len(raw)+2)
+	special := make([]bool, len(raw)+2)
+	for i, l := range raw {
+		letters[i+1] = asciiLetters(l)
+		// lines on which a token's text is not simply the letters of the line: entities and mapped symbols
+		special[i+1] = strings.ContainsAny(l, "&©§¤")
+	}
+	ws := words(x, true)
+	checked, joined := 0, 0
+	for _, w := range ws {
+		if w.Line < 1 || w.Line > len(raw) {
+			return lib.Outcome{Violation: fmt.Sprintf("input %s + layout %v: word %q is attributed to line %d but the input has %d lines", c.X.describe(), c.Layout, w.Word, w.Line, len(raw))}
+		}
+		ok := len(w.Word) >= 3 && w.Word == asciiLetters(w.Word) && !strings.Contains(w.Word, "http")
+		if _, sp := c11Canon[w.Word]; sp {
+			ok = false
+		}
+		for _, p := range c06Spellings {
+			if p[1] == w.Word {
+				ok = false
+			}
+		}
+		if !ok || special[w.Line] {
+			continue
+		}
+		if strings.Contains(letters[w.Line], w.Word) {
+			checked++
+			continue
+		}
+		// hyphenated across line breaks: a prefix ends this line, the rest continues on following lines with letters
+		found := false
+		for cut := 1; cut < len(w.Word) && !found; cut++ {
+			if !strings.HasSuffix(letters[w.Line], w.Word[:cut]) {
+				continue
+			}
+			rest := w.Word[cut:]
+			for k := w.Line + 1; k <= len(raw) && rest != ""; k++ {
+				if special[k] {
+					rest = ""
+					break
+				}
+				if letters[k] == "" {
+					continue
+				}
+				if strings.HasPrefix(letters[k], rest) {
+					rest = ""
+				} else if strings.HasPrefix(rest, letters[k]) && strings.HasSuffix(strings.TrimRight(raw[k-1], " \t\r"), "-") {
+					rest = rest[len(letters[k]):] // the whole line is one more fragment of the word
+				} else {
+					break
+				}
+			}
+			found = rest == ""
+		}
+		if found {
+			joined++
+			continue
+		}
+		return lib.Outcome{Violation: fmt.Sprintf("input %s + layout %v: word %q is attributed to line %d, but that line reads %q", c.X.describe(), c.Layout, w.Word, w.Line, raw[w.Line-1])}
+	}
+	var classes []string
+	if joined > 0 {
+		classes = append(classes, "hyphen-joined-word")
+	}
+	if len(c.Layout) > 0 {
+		classes = append(classes, "synthetic-hyphen-layout")
+	}
+	return lib.Outcome{Nontrivial: checked > 3, FP: fmt.Sprintf("%s|%v", c.X.describe(), c.Layout), Classes: classes, Extra: map[string]int{"words_checked": checked, "hyphen_joined_words_checked": joined},
+		Sample: map[string]interface{}{"input": c.X.describe(), "layout_atoms": len(c.Layout), "words_checked": checked, "head": lib.Preview(x, 80)}}
+}
+
+func TestVerif_C02_Lines(t *testing.T) {
+	lib.Run(t, lib.Spec{ID: "C02", Part: "line-attribution",
+		Rule: "generated license-bearing inputs and synthetic layouts of words, blanks, newlines, blank lines and hyphens at line ends; oracle independent of the tokenizer's line counter: the letters of every plain ASCII word (>= 3 letters, not subject to spelling substitution) must occur on the physical line the word is attributed to, or end that line and continue on the following lines when hyphenated; non-trivial = more than 3 words checked",
+		New:  func() interface{} { return &c02LineCase{} }, Gen: c02LineGen, Check: c02LineCheck})
 }
